@@ -175,6 +175,11 @@ def implementation_only_checks(case):
 
 
 def run(ctx: Ctx, a_ok: bool):
+    from ..internals import transition_diagnostics
+    try:
+        transition_diagnostics(ctx)
+    except Exception as e:  # noqa: BLE001  (diagnostics never fail a check)
+        ctx.extra.setdefault('internal_diagnostics', {})['error'] = repr(e)[:200]
     ctx.cone = ["Graph.build_graph", "Transition.generate_transition", "Transition.transition_prob", "States.all_states"]
     ctx.rule = ("random lymph graphs (1-3 LNLs, 1-2 tumours, random DAG + tumour arcs, shuffled listing, binary/trinary) "
                 "x parameter vectors from {0,1} U k/16 U random doubles; thorough adds ALL graphs on <=3 binary / <=2 trinary "
